@@ -362,8 +362,8 @@ impl<Db: Database> StorageManager<Db> {
             .tic_toc(METRIC_READ_TIME, self.db.get::<St>(id))
             .await?;
         if let Some(cache) = &self.cache {
-            // cache the result
-            cache.put(&record).await;
+            // cache the result (without overwriting an entry a concurrent write has put there)
+            cache.fill(&record).await;
         }
         Ok(record)
     }
@@ -412,9 +412,10 @@ impl<Db: Database> StorageManager<Db> {
                 .tic_toc(METRIC_READ_TIME, self.db.batch_get::<St>(&keys))
                 .await?;
 
-            // cache the db returned results
+            // cache the db returned results (without overwriting entries a concurrent write has
+            // put there)
             if let Some(cache) = &self.cache {
-                cache.batch_put(&results).await;
+                cache.batch_fill(&results).await;
             }
 
             records.append(&mut results);
@@ -497,7 +498,7 @@ impl<Db: Database> StorageManager<Db> {
         if let Some(state) = maybe_db_state {
             // cache the item for future access
             if let Some(cache) = &self.cache {
-                cache.put(&DbRecord::ValueState(state.clone())).await;
+                cache.fill(&DbRecord::ValueState(state.clone())).await;
             }
 
             Ok(state)
